@@ -134,6 +134,10 @@ var c15MainCmds = []database.Command{
 var c15PersonalCmds = []database.Command{
 	{Command: "mytool deploy", Description: "deploy my project", Keywords: []string{"release"}},
 	{Command: "notes open", Description: "open the notebook"},
+	// the user's own copies of built-in entries: the same text, the same text in other letters, and one entry twice
+	{Command: "tar -czf out.tgz dir", Description: "compress a directory", Keywords: []string{"mine"}},
+	{Command: "GREP -R PATTERN .", Description: "Search Text Recursively"},
+	{Command: "notes open", Description: "open the notebook"},
 }
 
 func c15Materialise(dir, name, fault string, cmds []database.Command) string {
